@@ -74,6 +74,15 @@ CLAIMED = {
             "signal order and contents; IntEdit/IntegerEdit/FloatEdit for the alphabet invariant.",
             "Trusted: TLC, stops_of() (cursor stops derived from the widget's own layout; the layout contract is C03), vf/term.char_width.",
             "DESIGN.md §4 C10"),
+    "C07": ("TLA+ contract ListBoxOps.tla (contiguous slice, blanks only below and only when everything is shown, focus and cursor row visible) "
+            "model-checked by TLC on an abstract list box under all bounded histories (ListBox.tla; a no-refill placement is refuted); TLC "
+            "trace validation (ListBoxTrace.tla) of histories executed on real ListBox widgets over row-labelled items",
+            "TLC shows the contract satisfiable under every bounded history of focus moves, scrolling, resizes and list edits, and judges the view "
+            "rendered after every action of every recorded history (exhaustive small lists x keys x presses, random histories with set_focus / "
+            "set_focus_valign / wheel / resize / walker insert-delete-replace; three walker kinds; heights 0,1,2,3,7; cursor rows).",
+            "Trusted: TLC, the row-labelled Item widget and canvas projection in vf/props/c07.py. Exceptions raised by keypress/mouse_event "
+            "(not by render) are reported as DIVERGENCE, the property speaks of rendering.",
+            "DESIGN.md §4 C07"),
 }
 
 NOT_APPLICABLE = {}
